@@ -141,3 +141,114 @@ func VH_C08_bounds_flat_Q() {
 // (A harness for the extrema of one cubic - Bounds contains B(t) for symbolic control values and
 // t - was tried and dropped: the queries combine the quadratic formula's square root with a
 // cubic in t and stay unknown; see DESIGN.md.)
+
+// C08-H5: FastBounds of an elliptical arc contains every point of the arc, for all radii,
+// rotations, flags, centres and extents.  The arc is generated from its centre form: centre c,
+// radii, rotation as a unit vector (cos phi, sin phi), start and end as unit vectors s, e in the
+// parameter space; the end points of the stored arc are computed from them and the flags follow
+// from the orientation of (s, e).  ellipseToCenter is replaced (symbolic run only) by a stub that
+// returns that centre, which is its contract; natively the real function recovers it.  The sample
+// point is c + R(phi)(rx qx, ry qy) for a unit vector q on the arc between s and e (side of the
+// chord), q = ((1-u^2)/(1+u^2), 2u/(1+u^2)).  All trigonometry stays outside the solver.
+var vhC08EC [4]float64
+
+func vhC08EllipseToCenter(x0, y0, rx, ry, phi float64, large, sweep bool, x1, y1 float64) (float64, float64, float64, float64) {
+	return vhC08EC[0], vhC08EC[1], vhC08EC[2], vhC08EC[3]
+}
+
+func VH_C08_arc_bounds_Q() {
+	vMerge(false)
+	vStub("github.com/tdewolff/canvas.ellipseToCenter", vhC08EllipseToCenter)
+	cx, cy := vhReal(), vhReal()
+	// radii, rotation and the two end parameters are taken from grids of exact rationals (with
+	// symbolic radii or rotation the queries are cubic in six or more unknowns, which no installed
+	// solver decides within minutes); the centre and the sample point are symbolic
+	radii := [][2]float64{{1, 1}, {2, 1}, {5, 0.5}, {3, 2.5}}
+	rr := radii[vChoose(0, len(radii)-1)]
+	rx, ry := rr[0], rr[1]
+	units := [][2]float64{{1, 0}, {0.8, 0.6}, {0, 1}, {-0.6, 0.8}, {-0.96, 0.28}, {-0.6, -0.8}, {5.0 / 13, -12.0 / 13}}
+	rot := units[vChoose(0, 4)] // 0 <= phi < pi
+	cphi, sphi := rot[0], rot[1]
+	i0 := vChoose(0, len(units)-1)
+	i1 := vChoose(0, len(units)-1)
+	vAssume(i0 != i1)
+	c0, s0 := units[i0][0], units[i0][1]
+	c1, s1 := units[i1][0], units[i1][1]
+	cross := c0*s1 - s0*c1
+	vAssume(math.Abs(cross) >= 1e-3) // extent away from 180 degrees
+	sweep := vChoose(0, 1) == 1
+	large := (cross < 0) == sweep
+	fl := 0.0
+	if large {
+		fl += 1
+	}
+	if sweep {
+		fl += 2
+	}
+	x0, y0 := cx+rx*c0*cphi-ry*s0*sphi, cy+rx*c0*sphi+ry*s0*cphi
+	x1, y1 := cx+rx*c1*cphi-ry*s1*sphi, cy+rx*c1*sphi+ry*s1*cphi
+	phi := math.Atan2(sphi, cphi)
+	// angles of the centre form as ellipseToCenter defines them: theta0 in [0,2pi), theta1 =
+	// theta0 + extent with the sign of the sweep direction
+	th0 := math.Atan2(s0, c0)
+	if th0 < 0 {
+		th0 += 2 * math.Pi
+	}
+	ext := math.Atan2(cross, c0*c1+s0*s1) // signed angle from s to e in (-pi,pi)
+	if sweep && ext < 0 {
+		ext += 2 * math.Pi
+	} else if !sweep && ext > 0 {
+		ext -= 2 * math.Pi
+	}
+	vhC08EC = [4]float64{cx, cy, th0, th0 + ext}
+	p := &Path{d: []float64{MoveToCmd, x0, y0, MoveToCmd, ArcToCmd, rx, ry, phi, fl, x1, y1, ArcToCmd}}
+	f := p.FastBounds()
+	b := p.Bounds()
+	if !vSymbolic() {
+		// replay: the real function recovers the centre the arc was generated from
+		l, sw := toArcFlags(fl)
+		rcx, rcy, _, _ := ellipseToCenter(x0, y0, rx, ry, phi, l, sw, x1, y1)
+		vAssume(l == large && sw == sweep && math.Abs(rcx-cx) <= 1e-6 && math.Abs(rcy-cy) <= 1e-6)
+	}
+	// sample parameter: rational parametrisation of the unit circle (keeps solver models rational);
+	// |u| <= 16 covers 345.6 degrees, the mirrored copy covers the rest
+	u := vhReal()
+	qc, qs := (1-u*u)/(1+u*u), 2*u/(1+u*u)
+	if vChoose(0, 1) == 1 {
+		qc, qs = -qc, -qs
+	}
+	side := (c1-c0)*(qs-s0) - (s1-s0)*(qc-c0)
+	vAssume((sweep && side <= 0) || (!sweep && side >= 0))
+	X := cx + rx*qc*cphi - ry*qs*sphi
+	Y := cy + rx*qc*sphi + ry*qs*cphi
+	vAssert("C08.fastbounds.arc.contains_x", f.X0-1e-9 <= X && X <= f.X1+1e-9)
+	vAssert("C08.fastbounds.arc.contains_y", f.Y0-1e-9 <= Y && Y <= f.Y1+1e-9)
+	vAssert("C08.bounds.arc.contains_x", b.X0-1e-9 <= X && X <= b.X1+1e-9)
+	vAssert("C08.bounds.arc.contains_y", b.Y0-1e-9 <= Y && Y <= b.Y1+1e-9)
+	vAssert("C08.bounds.arc.inside_fastbounds", f.X0 <= b.X0+1e-9 && b.X1 <= f.X1+1e-9 && f.Y0 <= b.Y0+1e-9 && b.Y1 <= f.Y1+1e-9)
+	// tightness: every side is attained, either at an end point or at the extreme point of the
+	// full ellipse in that direction when that point lies on the arc.  X-cx = ax*qc+bx*qs is
+	// extreme at q = +-(ax,bx)/|(ax,bx)|.
+	onArc := func(qc, qs float64) bool {
+		sd := (c1-c0)*(qs-s0) - (s1-s0)*(qc-c0)
+		return (sweep && sd <= 0) || (!sweep && sd >= 0)
+	}
+	ax, bx := rx*cphi, -ry*sphi
+	ay, by := rx*sphi, ry*cphi
+	nx, ny := math.Sqrt(ax*ax+bx*bx), math.Sqrt(ay*ay+by*by)
+	xlo, xhi := math.Min(x0, x1), math.Max(x0, x1)
+	ylo, yhi := math.Min(y0, y1), math.Max(y0, y1)
+	if onArc(ax/nx, bx/nx) {
+		xhi = cx + nx
+	}
+	if onArc(-ax/nx, -bx/nx) {
+		xlo = cx - nx
+	}
+	if onArc(ay/ny, by/ny) {
+		yhi = cy + ny
+	}
+	if onArc(-ay/ny, -by/ny) {
+		ylo = cy - ny
+	}
+	vAssert("C08.bounds.arc.tight", vhNear(b.X0, xlo) && vhNear(b.X1, xhi) && vhNear(b.Y0, ylo) && vhNear(b.Y1, yhi))
+}
